@@ -82,7 +82,9 @@ JudgeVerify(e) ==
                    \o (IF e.ctx = "empty" THEN "" ELSE ":" \o e.ctx)
       pool == PoolOf(e.ctx, e.base, tx, e.h)
   IN  Tag(~e.panic /\ ~e.first.panic, "Inv.Total.panic:" \o e.kind) \o
-      Tag(\A n \in AllFields : e.same[n] = (KeyOf(tx, n) = KeyOf(e.base, n)), "Proj.same:" \o who) \o
+      \* (the chain id a changed V derives to may or may not be the honest one: not compared)
+      Tag(\A n \in AllFields \ (IF e.kind = "eth" /\ tx.pay.v # HonestV THEN {"ChainId"} ELSE {}) :
+            e.same[n] = (KeyOf(tx, n) = KeyOf(e.base, n)), "Proj.same:" \o who) \o
       Tag(e.ctx \in Contexts, "Proj.context") \o
       JudgeDelivery(e, tx, e.h, pool, e.cls, who) \o
       \* the pool answers with this content for the declared hash only if the content is authentic
